@@ -53,6 +53,7 @@ func (in *Interp) mainThread() *thread {
 
 func (fr *frame) doGo(c *ssa.CallCommon) {
 	in := fr.in
+	in.e.site = "go in " + fr.fn.String()
 	in.mainThread()
 	var recv, fv Value
 	args := make([]Value, 0, len(c.Args))
